@@ -3,6 +3,7 @@ package main
 
 import (
 	"fmt"
+	"math"
 	"sort"
 	"strings"
 	"time"
@@ -14,6 +15,17 @@ import (
 )
 
 const ms = time.Millisecond
+
+// never is the usual spelling of "no timeout": the largest duration. call time + never must not wrap.
+const never = time.Duration(math.MaxInt64)
+
+func due(f tmh.FObs) time.Duration {
+	d := f.CallAt + f.Delay
+	if f.Delay > 0 && d < f.CallAt {
+		return never
+	}
+	return d
+}
 
 func judge(sc tmh.Script, obs *tmh.Obs, x *vsched.Exec) (string, *vsched.Violation) {
 	ctxt := "\nscript: " + sc.String() + "\nnotes: " + strings.Join(x.Notes, " / ")
@@ -32,18 +44,18 @@ func judge(sc tmh.Script, obs *tmh.Obs, x *vsched.Exec) (string, *vsched.Violati
 			return "v", &vsched.Violation{Sig: "started-twice", Detail: fmt.Sprintf("future #%d (delay %v) was started %d times at %v", i, f.Delay, len(f.Starts), f.Starts) + ctxt}
 		}
 		for _, s := range f.Starts {
-			if s < f.CallAt+f.Delay {
-				return "v", &vsched.Violation{Sig: "started-early", Detail: fmt.Sprintf("future #%d scheduled at +%v with delay %v was started at +%v, %v too early", i, f.CallAt, f.Delay, s, f.CallAt+f.Delay-s) + ctxt}
+			if s < due(f) {
+				return "v", &vsched.Violation{Sig: "started-early", Detail: fmt.Sprintf("future #%d scheduled at +%v with delay %v was started at +%v, %v too early", i, f.CallAt, f.Delay, s, due(f)-s) + ctxt}
 			}
 		}
 		earlyCancel := false
 		for _, c := range f.CancelRets {
-			if c < f.CallAt+f.Delay {
+			if c < due(f) {
 				earlyCancel = true
 			}
 		}
 		if earlyCancel && len(f.Starts) > 0 {
-			return "v", &vsched.Violation{Sig: "started-after-cancel", Detail: fmt.Sprintf("future #%d (due at +%v) was started at +%v although a Cancel had returned at %v, before it was due", i, f.CallAt+f.Delay, f.Starts[0], f.CancelRets) + ctxt}
+			return "v", &vsched.Violation{Sig: "started-after-cancel", Detail: fmt.Sprintf("future #%d (due at +%v) was started at +%v although a Cancel had returned at %v, before it was due", i, due(f), f.Starts[0], f.CancelRets) + ctxt}
 		}
 		if len(f.CancelRets) == 0 && len(f.Starts) != 1 {
 			return "v", &vsched.Violation{Sig: "never-started", Detail: fmt.Sprintf("future #%d (delay %v) was never cancelled and was started %d times by the final quiescence: a Cancel of another future or the pool state affected it", i, f.Delay, len(f.Starts)) + ctxt}
@@ -79,6 +91,7 @@ func script(delays []time.Duration, plans string, second bool, pool int, busy ti
 		p byte
 	}
 	var late []pc
+	var tail []tmh.Ev // 'z': cancelled at the very end, 20ms after everything else (a "never" future)
 	for i := range delays {
 		switch plans[i] {
 		case 'n':
@@ -87,6 +100,8 @@ func script(delays []time.Duration, plans string, second bool, pool int, busy ti
 			cancels = append(cancels, tmh.Ev{K: "cancel", F: i}, tmh.Ev{K: "cancel", F: i})
 		case 'f', 'a':
 			late = append(late, pc{i, plans[i]})
+		case 'z':
+			tail = append(tail, tmh.Ev{K: "cancel", F: i})
 		}
 	}
 	sort.SliceStable(late, func(a, b int) bool { return delays[late[a].i] < delays[late[b].i] })
@@ -96,6 +111,9 @@ func script(delays []time.Duration, plans string, second bool, pool int, busy ti
 			off = ms
 		}
 		cancels = append(cancels, tmh.Ev{K: "sleepfire", F: l.i, D: off}, tmh.Ev{K: "cancel", F: l.i})
+	}
+	if len(tail) > 0 {
+		cancels = append(append(cancels, tmh.Ev{K: "sleep", D: 20 * ms}), tail...)
 	}
 	sc := tmh.Script{Pool: pool, Idle: 30 * time.Second, N: len(delays)}
 	if second {
@@ -169,6 +187,22 @@ func main() {
 			}
 		}
 	}
+	// "never": a delay of math.MaxInt64 next to ordinary ones; it is cancelled 20ms later and must not have started,
+	// nor may it disturb the others
+	for _, ds := range [][]time.Duration{{never, ms}, {ms, never}, {never, 0}, {never, never}, {5 * ms, never, ms}} {
+		for _, pool := range []int{1, 2} {
+			plan := ""
+			for _, d := range ds {
+				if d == never {
+					plan += "z"
+				} else {
+					plan += "-"
+				}
+			}
+			jobs = append(jobs, job(script(ds, plan, false, pool, 0), adv(1, 1)))
+			jobs = append(jobs, job(script(ds, plan, true, pool, 0), adv(1, 0)))
+		}
+	}
 	sort.SliceStable(jobs, func(a, b int) bool { return jobs[a].Cfg.P+jobs[a].Cfg.K > jobs[b].Cfg.P+jobs[b].Cfg.K })
 	budget := 4 * time.Minute
 	if run.Thorough() {
@@ -176,7 +210,7 @@ func main() {
 	}
 	sdrv.Main(run, jobs, sdrv.Options{
 		Budget: budget,
-		Bounds: map[string]any{"futures": "1..3 (thorough 4)", "delays": "-1ms, 0, 1ms, 5ms with repetition (equal deadlines)", "cancel_plans": "none / right after the calls / exactly at the fire time (aligned with the dispatcher's timer so that Cancel races the pop) / 1ms after firing / twice", "callers": "1 or 2 (cancels issued by a second thread)", "pool_limit": "1..3", "idle_timeout": "30s, and 2ms in the family with a burst followed by a head beyond the idle timeout", "clock": "adversarial: the clock may advance while threads are runnable (K deviations) besides advancing when everything is blocked"},
+		Bounds: map[string]any{"futures": "1..3 (thorough 4)", "delays": "-1ms, 0, 1ms, 5ms with repetition (equal deadlines); a family with the maximal duration (never)", "cancel_plans": "none / right after the calls / exactly at the fire time (aligned with the dispatcher's timer so that Cancel races the pop) / 1ms after firing / twice", "callers": "1 or 2 (cancels issued by a second thread)", "pool_limit": "1..3", "idle_timeout": "30s, and 2ms in the family with a burst followed by a head beyond the idle timeout", "clock": "adversarial: the clock may advance while threads are runnable (K deviations) besides advancing when everything is blocked"},
 		Rule:   "every schedule within the preemption bound P and clock-deviation bound K of every script (multiset of delays x cancel plan per future x 1-2 callers x pool limit; one family with callbacks that stay busy so that the pool saturates) on the real timeout package (rewritten: mutex, wake channel, timers, worker spawn are scheduling points; thorough: every statement). Oracle on the virtual clock: start >= call time + delay; at most one start; no start if a Cancel returned before call time + delay; every future that was never cancelled starts exactly once by the final quiescence whatever was cancelled around it; heap indices consistent after every event; heap empty at the end",
 	})
 }
